@@ -12,6 +12,8 @@ pub enum SizeClass {
     Small,
     Medium,
     Large,
+    /// more than 65 536 frames (an untimed game of 18+ minutes)
+    Huge,
 }
 
 #[derive(Clone, Debug)]
@@ -153,6 +155,24 @@ pub fn gen_many_maps(rng: &mut Rng, total: usize) -> Tree {
     t
 }
 
+/// A tree whose JSON rendering exceeds `bytes` (many long strings; each within the 255-byte limit).
+pub fn gen_big_tree(rng: &mut Rng, bytes: usize) -> Tree {
+    let mut t: Tree = vec![];
+    let mut total = 0usize;
+    let mut k = 0usize;
+    while total < bytes {
+        let mut s = String::new();
+        let len = 200 + rng.usize_below(56);
+        while s.len() < len {
+            s.push((b'a' + rng.below(26) as u8) as char);
+        }
+        total += s.len() + 12;
+        t.push((format!("note{}", k), Node::Str(s)));
+        k += 1;
+    }
+    t
+}
+
 /// A deep, narrow chain (depth up to `d`) to exercise nesting.
 pub fn gen_chain(rng: &mut Rng, d: u32) -> Tree {
     let mut t: Tree = vec![("leaf".to_string(), Node::Int(rng.next_u32() as i32))];
@@ -202,22 +222,27 @@ pub fn gen_frames(rng: &mut Rng, v: (u8, u8), ports: &[PortSpec], n: usize) -> V
                 present |= 1 << b;
             }
         }
-        let items = match item_class {
+        let items: u16 = match item_class {
             0 => 0,
             1 => {
                 if rng.chance(1, 10) {
-                    1 + rng.below(2) as u8
+                    1 + rng.below(2) as u16
                 } else {
                     0
                 }
             }
-            2 => rng.below(4) as u8,
+            2 => rng.below(4) as u16,
             _ => {
                 if rng.chance(1, 20) {
-                    // bursts well beyond anything the fixtures contain (the busiest fixture frame has 7 items)
-                    8 + rng.below(40) as u8
+                    // bursts well beyond anything the fixtures contain (the busiest fixture frame has 7 items);
+                    // now and then past what an 8-bit counter can hold
+                    if rng.chance(1, 12) {
+                        250 + rng.below(60) as u16
+                    } else {
+                        8 + rng.below(40) as u16
+                    }
                 } else {
-                    rng.below(6) as u8
+                    rng.below(6) as u16
                 }
             }
         };
@@ -241,6 +266,14 @@ pub fn gen_frames(rng: &mut Rng, v: (u8, u8), ports: &[PortSpec], n: usize) -> V
             };
         } else {
             id = id.wrapping_add(1);
+        }
+    }
+    // the recording may END on extreme frame ids (arithmetic on the last id must not overflow)
+    if jumps && n > 0 && rng.chance(1, 3) {
+        let tail = 1 + rng.usize_below(3.min(n));
+        let base = *rng.pick(&[i32::MAX, i32::MAX - 1, i32::MAX - 100, i32::MIN, i32::MIN + 5]);
+        for (k, f) in frames.iter_mut().rev().take(tail).enumerate() {
+            f.id = base.saturating_sub(k as i32);
         }
     }
     frames
@@ -273,6 +306,7 @@ pub fn gen_recorder(rng: &mut Rng, cfg: &GenCfg) -> RecorderSpec {
         SizeClass::Medium => 41 + rng.usize_below(360),
         // more than 1024 rows crosses the initial column capacity; the quick tier keeps these runs
         // short (just past the boundary), the thorough tier goes to ~4000 rows
+        SizeClass::Huge => 65_537 + rng.usize_below(3000),
         SizeClass::Large => {
             if cfg.allow_large {
                 1025 + rng.usize_below(3000)
@@ -455,6 +489,7 @@ pub fn base_spec(property: &str, plan: &str, seed: u64, mut recorder: RecorderSp
         archive_edits: vec![],
         archive_version: None,
         knobs: BTreeMap::new(),
+        log_level: 0,
     }
 }
 
